@@ -58,14 +58,15 @@ class _Cf:
 
     def send_packet(self, pk, expected_reply=(), resend=False, timeout=0.2):
         self.s.yield_point()
-        if pk.port == 7 and pk.channel == 0 and len(pk.data) > 1:
+        port, channel = (pk.header & 0xF0) >> 4, pk.header & 0x03      # as a link driver would transmit it
+        if port == 7 and channel == 0 and len(pk.data) > 1:
             self.hover_count += 1
             if self.stall and self.hover_count == self.stall['at']:
                 # the link stalls (e.g. a full driver queue): this send blocks for a while
                 t0 = self.s.now
                 self.s.sleep(self.stall['dur'])
                 self.stalls.append((t0, self.s.now))
-        self.packets.append((self.s.now, pk.port, pk.channel, bytes(pk.data)))
+        self.packets.append((self.s.now, port, channel, bytes(pk.data)))
 
 
 def _decode(pk):
